@@ -82,6 +82,12 @@ pub mod num_bigint {
         open spec fn add_assign_spec(&self, rhs: BigInt) -> &BigInt { &of_int(bi(*self) + bi(rhs)) }
     }
     impl core::ops::AddAssign<BigInt> for BigInt { #[verifier::external_body] fn add_assign(&mut self, rhs: BigInt) { unimplemented!() } }
+    impl MulAssignSpecImpl<BigInt> for BigInt {
+        open spec fn obeys_mul_assign_spec() -> bool { true }
+        open spec fn mul_assign_req(&self, rhs: BigInt) -> bool { true }
+        open spec fn mul_assign_spec(&self, rhs: BigInt) -> &BigInt { &of_int(bi(*self) * bi(rhs)) }
+    }
+    impl core::ops::MulAssign<BigInt> for BigInt { #[verifier::external_body] fn mul_assign(&mut self, rhs: BigInt) { unimplemented!() } }
     impl SubAssignSpecImpl<BigInt> for BigInt {
         open spec fn obeys_sub_assign_spec() -> bool { true }
         open spec fn sub_assign_req(&self, rhs: BigInt) -> bool { true }
